@@ -23,6 +23,11 @@ type Spec struct {
 	Strategy  int    `json:"strategy"`         // -1 = drawn from SchedSeed
 	Tier      string `json:"tier"`
 	KeepLog   bool   `json:"-"`
+	// Before: generation seeds of runs to execute first, in the same process (their results
+	// are ignored). For violations that only show after earlier runs: code under test that
+	// keeps state process-wide (a package-level cache, say) carries it from one router
+	// instance to the next, and a run in a fresh process does not reproduce it.
+	Before []uint64 `json:"before,omitempty"`
 }
 
 // Result is what one run reports.
@@ -45,6 +50,7 @@ type Result struct {
 	RouterLog  []string       `json:"router_log,omitempty"`
 	Tooling    string         `json:"tooling,omitempty"` // harness trouble (exit 2), not a violation
 	Live       []string       `json:"live,omitempty"`
+	PrevSeeds  []uint64       `json:"prev_seeds,omitempty"` // what this worker process ran before (for Spec.Before)
 	post       func(*Result)  // optional check over the recorded history, run after the bubble has ended (plain goroutines, real time)
 }
 
@@ -138,6 +144,9 @@ func Register(p *PropDef) { Props[p.ID] = p }
 
 // RunOne executes one simulated run in its own bubble.
 func RunOne(t *testing.T, spec Spec) (res *Result) {
+	for _, b := range spec.Before {
+		RunOne(t, Spec{Prop: spec.Prop, GenSeed: b, SchedSeed: Mix(b, 7), Strategy: -1, Tier: spec.Tier})
+	}
 	res = &Result{Spec: spec, Probes: map[string]int{}, Faults: map[string]int{}}
 	p := Props[spec.Prop]
 	raceOnly := false
